@@ -54,7 +54,7 @@ def configs(tier, seed):
             if tier == "quick" and f == (1, 1, 1) and n % 3:
                 continue
             out.append(dict(harness="average", dtype=dts[n % 3], C=1 + (n % 5 == 0), shape=list(shp), factors=list(f),
-                            outside=("sym" if n % 2 else None), cost=1 + shp[0] * shp[1] * shp[2] // 9))
+                            outside=("sym" if n % 2 else None), auto=(n % 4 == 1), cost=1 + shp[0] * shp[1] * shp[2] // 9))
     mf = [(1, 1, 1), (2, 2, 2), (2, 1, 1), (1, 2, 2), (3, 1, 2), (2, 3, 1), (1, 1, 3), (3, 3, 3)]
     for shp in shapes:
         for j, f in enumerate(mf):
@@ -109,7 +109,11 @@ def H_average(ctx, cfg):
         outside = SDy(ov, 0, 8)
     else:
         ov, outside = None, None
-    d = ds.get_downscaler("average", None, {"outside_value": outside})
+    if cfg.get("auto"):
+        # the command-line default: method "auto" resolved from the dataset type, same options
+        d = ds.get_downscaler("auto", {"type": "image", "data_type": dtype, "num_channels": C}, {"outside_value": outside})
+    else:
+        d = ds.get_downscaler("average", None, {"outside_value": outside})
     res = d.downscale(chunk, (fx, fy, fz))
     want_shape = (C, -(-Z // fz), -(-Y // fy), -(-X // fx))
     ctx.prove(res.shape == want_shape and real_np.dtype(res.dtype) == real_np.dtype(dtype), "shape-ceil-div-and-dtype",
@@ -367,7 +371,7 @@ def replay(cfg, cex):
     opts = {}
     if h == "average" and cfg["outside"] == "sym":
         opts["outside_value"] = float(inp["outside"])
-    d = ds.get_downscaler(h, None, opts)
+    d = ds.get_downscaler("auto", {"type": "image"}, opts) if (h == "average" and cfg.get("auto")) else ds.get_downscaler(h, None, opts)
     try:
         res = d.downscale(chunk.copy(), (fx, fy, fz))
     except Exception as e:
